@@ -45,23 +45,23 @@ type elem struct {
 // peer is the scripted remote entity: it parses everything the session writes
 // and feeds stanzas in order.
 type peer struct {
-	rs      *common.RawSession
-	ctl     *c06.Ctl
-	h       *ibb.Handler
-	feedCh  chan []byte
-	in      chan elem
-	pw      *io.PipeWriter
-	done    chan struct{} // closed by stop
-	dataErr   bool   // answer data IQs with an error
-	closeMode string // how the peer answers <close/>: "" result, "err" error, "silent" not at all
-	openSilent bool // the peer does not answer <open/> at all
-	openOK  bool   // answer of the peer to an <open/> request
-	packets []pkt  // data stanzas tapped from the session
-	replies map[string]string
-	closes  int
-	onClose func() // called when the session's <close/> arrives, before it is answered
-	nsync   int
-	reqIDs  []string // ids of the open / data / close requests the session sent
+	rs         *common.RawSession
+	ctl        *c06.Ctl
+	h          *ibb.Handler
+	feedCh     chan []byte
+	in         chan elem
+	pw         *io.PipeWriter
+	done       chan struct{} // closed by stop
+	dataErr    bool          // answer data IQs with an error
+	closeMode  string        // how the peer answers <close/>: "" result, "err" error, "silent" not at all
+	openSilent bool          // the peer does not answer <open/> at all
+	openOK     bool          // answer of the peer to an <open/> request
+	packets    []pkt         // data stanzas tapped from the session
+	replies    map[string]string
+	closes     int
+	onClose    func() // called when the session's <close/> arrives, before it is answered
+	nsync      int
+	reqIDs     []string // ids of the open / data / close requests the session sent
 }
 
 type pkt struct {
@@ -300,7 +300,9 @@ type rop struct {
 // character data of the element: what the pieces of kind T, C and E contribute, concatenated.
 //
 //	T plain text    C a CDATA section    E numeric character references (one per byte)
-//	M a comment (contributes nothing)
+//
+// (Comments and processing instructions are refused by the session itself - restricted XML - and
+// are not generated.)
 type seg struct {
 	kind byte
 	text string
@@ -309,9 +311,7 @@ type seg struct {
 func segsText(ss []seg) string {
 	var b strings.Builder
 	for _, s := range ss {
-		if s.kind != 'M' {
-			b.WriteString(s.text)
-		}
+		b.WriteString(s.text)
 	}
 	return b.String()
 }
@@ -332,8 +332,6 @@ func segsWire(ss []seg) string {
 					fmt.Fprintf(&b, "&#x%X;", c)
 				}
 			}
-		case 'M':
-			b.WriteString("<!--" + s.text + "-->")
 		}
 	}
 	return b.String()
@@ -350,7 +348,7 @@ func segsTok(ss []seg) string {
 // parsePayloadTok: the payload field of a `d:` token: plain hex (one piece of text) or pieces
 // `<K><hex>` joined by `+`.
 func parsePayloadTok(f string) (string, []seg) {
-	if f == "" || f == "-" || !strings.ContainsAny(f[:1], "TCEM") {
+	if f == "" || f == "-" || !strings.ContainsAny(f[:1], "TCE") {
 		b, _ := common.UnHex(f)
 		return string(b), nil
 	}
@@ -517,6 +515,8 @@ func runRecv(r *common.Run, maxbuf0 int, carrier string, ops []rop, class string
 			r.Fail("refuse", "oversize-packet-accepted", line(), fmt.Sprintf("the receive buffer is limited to %d bytes (as requested, raised only to the block size), %d are buffered, a packet of %d bytes was acknowledged instead of refused with resource-constraint", maxbuf, unread, len(dec)))
 		case code == "ack" && derr != nil:
 			r.Fail("refuse", "undecodable-packet-accepted", line(), fmt.Sprintf("payload %q acknowledged", o.payload))
+		case code != "ack" && valid && inSeq && isCanonical(o.seqText()) && len(o.segs) > 1:
+			r.Fail("deliver", "valid-packet-serialised-in-several-pieces-refused", line(), fmt.Sprintf("packet seq %d is valid and in sequence; the character data of its <data/> element (%q, serialised as %s) is the base64 text %q; it was answered %s", o.seq, o.body(), segsTok(o.segs), o.payload, code))
 		case code != "ack" && valid && inSeq && isCanonical(o.seqText()) && during != "":
 			r.Fail("deliver", "packet-in-flight-at-local-close-refused", line(), fmt.Sprintf("local Close had sent its <close/> and was waiting for the answer; packet seq %d (%q) of the peer, valid and in sequence, sent before the peer answered (what it had written and flushes when it handles the close), was answered %s: bytes the peer wrote are lost", o.seq, o.payload, code))
 		case code != "ack" && valid && inSeq && isCanonical(o.seqText()):
@@ -1450,7 +1450,7 @@ func runListener(r *common.Run, ops []string, class string) {
 	accCh := make(chan acc, 64)
 	expCh := make(chan acc, 8)
 	var expCancel context.CancelFunc
-	expecting := -1   // number of the open request the waiting Expect call asked for
+	expecting := -1 // number of the open request the waiting Expect call asked for
 	// the waiting Expect call returns now (its outcome is caused by the op at index idx)
 	collectExpect := func(obs []string, idx int, line func() []string) {
 		select {
